@@ -132,6 +132,28 @@ def inversePairs : List (String × String) := [("bohr2nm", "nm2bohr"), ("ang2boh
   ("hrt2ev", "ev2hrt"), ("kcal2kj", "kj2kcal")]
 def inversesOK : Bool := inversePairs.all fun (a, b) => relClose (lookup constants a * lookup constants b) 1 tol4
 
+/-! ## other places: the factor a reader / writer code path must have applied (observed on real files by the harness) -/
+
+/-- `len`: Å → nm; `invlen`: nm → Å (SI: exactly 1/10 and 10); `force`: kcal/mol/Å → kJ/mol/nm and `invforce` the reverse, in
+    terms of the library's own constants (their agreement with SI is the business of `constOK` and the recorded kcal finding) -/
+def placeRef (kind : String) : Option Rat :=
+  if kind == "len" then some (1 / 10)
+  else if kind == "invlen" then some 10
+  else if kind == "force" then some (lookup constants "kcal2kj" / lookup constants "ang2nm")
+  else if kind == "invforce" then some (lookup constants "kj2kcal" / lookup constants "nm2ang")
+  else none
+
+def placeOK (kind : String) (v : Rat) : Bool :=
+  match placeRef kind with
+  | some r => relClose v r tol4
+  | none => false
+
+/-- the references of the places agree with the unit tables and constants of the library itself -/
+def placeRefsOK : Bool :=
+  placeOK "len" (conv distance "angstroms" "nanometers") && placeOK "invlen" (conv distance "nanometers" "angstroms") &&
+  placeOK "len" (lookup constants "ang2nm") && placeOK "invlen" (lookup constants "nm2ang") &&
+  relClose ((placeRef "force").getD 0 * (placeRef "invforce").getD 0) 1 tol4
+
 /-- the units csg files are in must exist in the tables -/
 def csgUnitsOK : Bool := csgUnits.all fun (_, u) => dimensions.any fun (_, t) => (keys t).contains u
 
